@@ -174,7 +174,33 @@ def rule_r5(p, res):
     r.check("self.__class__.__new__(self.__class__)" in s or "type(self).__new__(type(self))" in s, gen, gen.node, "the generic copy must instantiate the object's own class")
 
 
-RULES = [rule_r1, rule_r2, rule_r3, rule_r4, rule_r5]
+def rule_r6(p, res):
+    r = res.rule("C02.R6", "homogeneous application: append ones, multiply by h^T, divide each row by its own last coordinate, drop that coordinate")
+    f = p.own_method("Homogeneous", "_apply")
+    r.instance(f)
+    x = f.params[1]
+    d = Defs(f.node)
+    hx = d.single("h_x")
+    hy = d.single("h_y")
+    from ..astutil import P
+    r.check(hx is not None and norm(hx) == P("np.hstack([%s, np.ones([%s.shape[0], 1])])" % (x, x)), f, f.node, "points must be lifted with a column of ones")
+    r.check(hy is not None and norm(hy) in (P("h_x.dot(self.h_matrix.T)"), P("np.dot(h_x, self.h_matrix.T)")), f, f.node, "lifted points must be multiplied by h_matrix^T")
+    rets = returns_of(f.node)
+    need(len(rets) == 1, "C02.R6: Homogeneous._apply should have one return")
+    s = norm(rets[0].value)
+    r.check(s == "(h_y / h_y[:, -1][:, None])[:, :-1]", f, rets[0], "the result must be h_y divided row-wise by its last column, without that column (found `%s`): anything else gives wrong "
+            "coordinates for projective matrices or for matrices that change the dimensionality" % s, {"return": s})
+    nd = p.own_method("Homogeneous", "n_dims")
+    ndo = p.own_method("Homogeneous", "n_dims_output")
+    r.check(norm(returns_of(nd.node)[0].value) == "self.h_matrix.shape[1] - 1" and norm(returns_of(ndo.node)[0].value) == "self.h_matrix.shape[0] - 1", nd, nd.node,
+            "input dimensionality = columns - 1, output dimensionality = rows - 1")
+    af = p.own_method("Affine", "_apply")
+    r.instance(af)
+    s = norm(returns_of(af.node)[0].value)
+    r.check(s == P("np.dot(%s, self.linear_component.T) + self.translation_component" % af.params[1]), af, af.node, "affine application = x L^T + t (found `%s`)" % s)
+
+
+RULES = [rule_r1, rule_r2, rule_r3, rule_r4, rule_r5, rule_r6]
 
 WITNESSES = [
     Witness("C02.W1", "menpo/shape/mesh/base.py", "TriMesh", "def tojson(self):", "def _transform_inplace(self, transform):\n        return self._transform_self_inplace(transform)\n\n    def tojson(self):",
@@ -190,5 +216,6 @@ WITNESSES = [
             rule="C02.R4", construct="R2LogRRBF._apply"),
     Witness("C02.W7", "menpo/shape/pointcloud.py", "PointCloud._transform_self_inplace", "self.points = transform(self.points)", "self.points[:] = transform(self.points)",
             rule="C02.R3", construct="PointCloud._transform_self_inplace"),
+    Witness("C02.W8", "menpo/transform/homogeneous/base.py", "Homogeneous._apply", "[:, :-1]", "[:, :self.n_dims]", rule="C02.R6", construct="Homogeneous._apply", note="seeded change R2-C02-B"),
     Witness("C02.T1", "menpo/transform/homogeneous/affine.py", "Affine._apply", "np.dot(x, self.linear_component.T)", "x.dot(self.linear_component.T)", kind="T"),
 ]
